@@ -180,3 +180,23 @@ def forward(fn, init, transfer_elem, transfer_edge, join, bottom=None, edge_ok=N
             s = transfer_elem(s, b, i, e)
         before[(b, len(fn.elems(b)))] = s
     return IN, before
+
+
+def dominated_by_edge(fn, bid, cond_pred, label="true"):
+    """block bid is reachable only through the `label` edge of a branch whose condition satisfies cond_pred(cond expr):
+    returns the list of such branch blocks"""
+    dom = dominators(fn)
+    out = []
+    for d in dom.get(bid, ()):
+        t = fn.term(d)
+        c = t.get("cond")
+        if c is None or not cond_pred(c):
+            continue
+        succ = dict((lab, to) for to, lab in fn.succs(d))
+        tgt = succ.get(label)
+        if tgt is None:
+            continue
+        other = succ.get("false" if label == "true" else "true")
+        if (tgt == bid or tgt in dom.get(bid, ())) and tgt != other:
+            out.append(d)
+    return out
